@@ -159,6 +159,7 @@ func checkC11(w *World, r *Report) {
 	checkTagTextConsumed(w, r, "R11.12")
 	checkLocalsBeforeGlobals(w, r)
 	checkIncludeOutputUnchanged(w, r)
+	checkScopesAskedInnermostFirst(w, r)
 
 	// ---- R11.2 / R11.3 in IncludeNode.Render and its parts (unexported helpers with that one call
 	// site; flags may travel in a local struct of options and be tested by predicate helpers)
@@ -1468,4 +1469,74 @@ func checkIncludeOutputUnchanged(w *World, r *Report) {
 		})
 	}
 	r.Counts["writes of IncludeNode.Render and its helpers to the page"] = n
+}
+
+// checkScopesAskedInnermostFirst — R11.15: a name is looked for in the scopes from the inside out.
+// No function reads a variable out of a context it reached by walking the parent links to their
+// end (a loop `for r.parent != nil { r = r.parent }`) unless the read sits inside that walk: the
+// render's outermost scope asked directly answers before the scopes in between, so the `with`
+// variable of an include, a `set` or a loop variable of an intermediate template is passed over
+// for the outermost binding of the same name.
+func checkScopesAskedInnermostFirst(w *World, r *Report) {
+	n := 0
+	for _, fn := range w.pkgFuncs() {
+		instrsOf(fn, func(in ssa.Instruction) {
+			lk, ok := in.(*ssa.Lookup)
+			if !ok {
+				return
+			}
+			base, ok := fieldLoad(lk.X, "RenderContext", "context")
+			if !ok {
+				return
+			}
+			// the context read from: a phi that walks .parent?
+			var walk *ssa.Phi
+			for _, o := range originChain(base) {
+				ph, ok := o.(*ssa.Phi)
+				if !ok {
+					continue
+				}
+				for _, e := range ph.Edges {
+					if b2, ok := fieldLoad(unspill(e), "RenderContext", "parent"); ok {
+						for _, o2 := range originChain(b2) {
+							if o2 == ssa.Value(ph) {
+								walk = ph
+							}
+						}
+					}
+				}
+			}
+			if walk == nil {
+				return
+			}
+			n++
+			// natural loop of the phi's block
+			h := walk.Block()
+			body := map[*ssa.BasicBlock]bool{h: true}
+			var stack []*ssa.BasicBlock
+			for _, p := range h.Preds {
+				if h.Dominates(p) && !body[p] {
+					body[p] = true
+					stack = append(stack, p)
+				}
+			}
+			for len(stack) > 0 {
+				b := stack[len(stack)-1]
+				stack = stack[:len(stack)-1]
+				for _, p := range b.Preds {
+					if !body[p] {
+						body[p] = true
+						stack = append(stack, p)
+					}
+				}
+			}
+			construct := "a context reached by walking the parent links is read during the walk"
+			if body[lk.Block()] {
+				r.ok("R11.15", ssaName(fn), construct, w.posOf(lk.Pos()), "the read is made at every step of the walk, innermost scope first", true)
+			} else {
+				r.bad("R11.15", ssaName(fn), construct, w.posOf(lk.Pos()), "the variable is read from the context the walk ends at (the outermost scope) without the scopes passed on the way having been asked: a binding of the same name made by an including template in between — a `with` variable, a `set`, a loop variable — is skipped")
+			}
+		})
+	}
+	r.Counts["reads of a context reached by a parent walk"] = n
 }
